@@ -218,6 +218,17 @@ func checkC08(c *Ctx) {
 	}
 	c.R.Min("R-reader-teardown", 1)
 
+	// on the server, once the peer's connection is gone nothing the library started for it may stay blocked: sends to a
+	// session's queue can give up (shared with C06)
+	var sfns []*ssa.Function
+	for f := range c.Reach(serverEntries(c)...) {
+		if !clientSide(c, f) {
+			sfns = append(sfns, f)
+		}
+	}
+	sort.Slice(sfns, func(i, j int) bool { return sfns[i].String() < sfns[j].String() })
+	serverSendsGiveUp(c, sfns, "R-server-send-gives-up")
+
 	c08Bodies(c, cfns)
 	c08Release(c)
 	c08Loops(c, cfns)
